@@ -22,6 +22,7 @@ import (
 	"github.com/GoogleCloudPlatform/grpc-gcp-go/grpcgcp"
 	pb "github.com/GoogleCloudPlatform/grpc-gcp-go/grpcgcp/grpc_gcp"
 
+	v2 "verif.local/sim/poolsim/v2"
 	"verif.local/sim/simkit"
 	"verif.local/vsync/kern"
 )
@@ -205,6 +206,10 @@ type Sim struct {
 	opIdx        int
 	coreQueued   int
 	healing      bool
+	markOK       bool
+	markSeq      int
+	markCalls    int
+	markLoad     []int
 	lastCallCtx  context.Context
 	degraded     bool // a SHUTDOWN for a live pool connection was delivered: crash/progress oracles only
 	resolverSent bool
@@ -808,6 +813,81 @@ func (s *Sim) exec(i int, o Op) {
 		env.FailNew += o.A
 	case OpSteps:
 		s.k.RunSteps(o.A)
+	case OpMark:
+		// quiesce, then remember the load per channel if the pool is in the plain
+		// state the spread clause needs: every channel READY, nothing waiting
+		s.markOK = false
+		if !s.conc {
+			return
+		}
+		s.k.Quiesce()
+		s.afterOp()
+		if s.stop || !s.model.allReady() {
+			return
+		}
+		for _, c := range s.calls {
+			if c.Invoked && !c.Returned {
+				return
+			}
+		}
+		s.markLoad = s.markLoad[:0]
+		lo, hi := 1<<30, -1
+		for _, ch := range s.model.chans {
+			s.markLoad = append(s.markLoad, ch.inflight)
+			if ch.inflight < lo {
+				lo = ch.inflight
+			}
+			if ch.inflight > hi {
+				hi = ch.inflight
+			}
+		}
+		if hi-lo > 1 {
+			return
+		}
+		s.markOK, s.markSeq, s.markCalls = true, len(s.env.Events), len(s.calls)
+	case OpSpread:
+		if !s.conc || !s.markOK {
+			return
+		}
+		s.markOK = false
+		s.k.Quiesce()
+		s.afterOp()
+		if s.stop || len(s.model.chans) != len(s.markLoad) {
+			return
+		}
+		// only unkeyed calls on the latest picker, all placed, and no balancer
+		// callback or completion since the mark
+		for _, ev := range s.env.Events[s.markSeq:] {
+			if ev.Kind != EvPickInvoke && ev.Kind != EvPickReturn {
+				return
+			}
+		}
+		n := 0
+		for _, c := range s.calls[s.markCalls:] {
+			if c.Method != MPlain || c.Age != 0 || c.NoGCP || c.Stream || c.Res.Kind != ResPlaced {
+				return
+			}
+			n++
+		}
+		if n < 2 {
+			return
+		}
+		s.res.Count("probe:concurrent_spread_checked", 1)
+		lo, hi := 1<<30, -1
+		var now []int
+		for _, ch := range s.model.chans {
+			now = append(now, ch.inflight)
+			if ch.inflight < lo {
+				lo = ch.inflight
+			}
+			if ch.inflight > hi {
+				hi = ch.inflight
+			}
+		}
+		if hi-lo > 1 {
+			s.vio("C02", "not-least-loaded", "concurrent-volley", fmt.Sprintf("%d unkeyed calls started together on a pool at its maximum size with every channel READY and nothing else going on: active streams per channel went from %v to %v - some call was placed on a channel that was not least loaded whatever order the calls are put in", n, s.markLoad, now))
+			s.stop = true
+		}
 	case OpMutateCfg:
 		if s.callerCfg != nil && s.callerCfg.ApiConfig != nil && s.bal != nil && len(s.env.Conns) > 0 {
 			// The caller keeps using its object after handing it over (aliasing fault).
@@ -1031,7 +1111,7 @@ func (s *Sim) callBody(c *Call) {
 	if c.NilMsg {
 		// request shapes no key can be read from: untyped nil, typed nil pointer,
 		// values that are not messages at all
-		switch c.ID % 4 {
+		switch c.ID % 5 {
 		case 0:
 			req = nil
 		case 1:
@@ -1040,6 +1120,14 @@ func (s *Sim) callBody(c *Call) {
 			req = "not a message"
 		case 3:
 			req = int32(7)
+		case 4:
+			// another type that prints as "poolsim.Msg" and lacks the key field
+			// (only when the key path is not its one field)
+			if s.plan.Cfg.Locator%len(locators) != 0 {
+				req = &v2.Msg{Name: "other-version"}
+			} else {
+				req = nil
+			}
 		}
 	}
 	c.sentReq, c.sentReply = req, reply
